@@ -49,7 +49,27 @@ def gen_cases(rng, tier, info):
         h.reopen()
         h.obs()
         cases.append(Case("keys-%d" % j, h.cmds))
-    info.update({"histories": n, "key_assigning_updates": key_updates})
+    # null / empty-string key parts: the format has one value for both, so they must collide as keys
+    fam = 0
+    for first, second in ((None, ""), ("", None), (None, None), ("", "")):
+        for how in ("insert-batch", "insert-after", "update-to", "update-where"):
+            h = G.History(rng, 0)
+            t = h.add_table("T", kind="composite")          # key (A int, B nullable string), C int
+            if how == "insert-batch":
+                h.insert(t, rows=[[1, first, 1], [1, second, 2]])
+            elif how == "insert-after":
+                h.insert(t, rows=[[1, first, 1], [2, "a", 2]]); h.obs()
+                h.insert(t, rows=[[1, second, 3]])
+            elif how == "update-to":
+                h.insert(t, rows=[[1, first, 1], [1, "a", 2], [2, "a", 3]]); h.obs()
+                h.update(t, ups=[("B", second)], cond=("bin", "eq", ("col", "C"), ("lit", 2)))
+            else:
+                h.insert(t, rows=[[1, first, 1], [1, "a", 2], [1, "b", 3]]); h.obs()
+                h.update(t, ups=[("B", second), ("C", 9)], cond=("bin", "ge", ("col", "C"), ("lit", 2)))
+            h.obs(); h.reopen(); h.obs()
+            cases.append(Case("nullkey-%s-%r-%r" % (how, first, second), h.cmds))
+            fam += 1
+    info.update({"histories": n, "key_assigning_updates": key_updates, "null_or_empty_key_cases": fam})
     return cases
 
 
